@@ -63,7 +63,7 @@ func (c *liveConsumer) OnMessageResponse(body []byte) error {
 		liveSend(c.rec, c.conn, fmt.Sprintf("c%d", body[1]))
 	}
 	c.rec.add(tracefmt.Rec{"ev": "deliverret", "tag": c.tag})
-	return nil
+	return consumerErr(body)
 }
 
 func liveSend(rec *recorder, conn proxy.LoginPhaseConnection, tag string) {
@@ -270,14 +270,7 @@ func TestLive(t *testing.T) {
 				if lc.closed || (lc.success && protoV < rig.P1_20_2) {
 					break // the client left the login state: a login packet would be garbage
 				}
-				var body []byte
-				if rs.OK {
-					body = []byte{byte(rs.ID), byte(k + 1), 0}
-					if rs.Chain {
-						body[2] = 1
-					}
-				}
-				lc.respond(rs.ID, rs.OK, body)
+				lc.respond(rs.ID, rs.OK, respBody(rs, k+1))
 				lc.drain(quiet)
 			}
 			if len(p.Gor) > 0 && !lc.closed && !(lc.success && protoV < rig.P1_20_2) {
